@@ -19,6 +19,34 @@ CHECKS = {
         ref="3 C01", technique="Lean 4 proof over a schema regenerated from the source (translator) + generic codec model/implementation correspondence",
         note=TB + "classes with a hand-written codec are opaque leaves of the generic model: their round trip is judged on "
                   "the implementation only; recorded defect KF-C01-post-alonzo-flag."),
+    "C02": dict(
+        text="T1: the codec table regenerated from /repo's live classes is compared, inside the kernel (decide +kernel), with a "
+             "table transliterated by hand from the Conway CDDL (Pyc/Spec/Conway.lean): per class the codec kind and type code, "
+             "per field the map key / array position, optional flag and type term (set-vs-list, union alternatives, hash "
+             "sizes); theorem: tables that match field-wise encode every value to the same item (`refines_sound`). T2: an "
+             "independent reference encoder written from the CDDL (harness/ref/conway.py) generates spec-level transactions "
+             "covering every body key, certificate / action / voter / relay kind, output form, redeemer and auxiliary-data "
+             "form, and its bytes are compared with pycardano's for the whole transaction and for each part; the Lean codec "
+             "model is run on the same objects (`codec.enc`).",
+        ref="3 C02", technique="Lean 4 proof over a schema regenerated from the source (translator) against a specification table + reference-encoder correspondence",
+        note=TB + "the specification table and the reference encoder are hand transliterations of the Conway CDDL (trusted); "
+                  "classes with a hand-written to_primitive (addresses, values, outputs, Plutus data, scripts, metadata) are judged "
+                  "by the reference encoder on the implementation, not by the table theorem; recorded defect "
+                  "KF-C02-orderedset-str-dedup."),
+    "C03": dict(
+        text="Lean theorems: CBOR byte-level round trip with framing for every well-formed item (definite / indefinite arrays, "
+             "chunked strings, tags); decode-then-re-encode is the identity on bytes for every typed value of every schema table "
+             "(so the id, a function of the body bytes, is preserved); the set tag flag is part of the restored value. Tied to "
+             "/repo by a reference encoder emitting every supported wire variant (tagged / untagged per set site, legacy / map "
+             "outputs, datum forms, reference scripts, indefinite lists, optional subsets, 0..6 elements) and comparing body bytes "
+             "and id after Transaction.from_cbor(...).to_cbor(), in-process (pure back end) and in sub-processes crossing "
+             "{pure, C extension} x PYTHONHASHSEED; the Lean CBOR and codec layers are run on the same bytes.",
+        ref="3 C03", technique="Lean 4 proof (decode/re-encode identity on the image) + wire-variant correspondence incl. back-end / hash-seed sub-processes",
+        note=TB + "PARTIAL: TransactionBody, outputs, values and Plutus data have hand-written codecs and are opaque leaves of the "
+                  "typed model — for them the theorem says their CBOR item survives, and their own restoration is judged on the "
+                  "implementation; the C extension and the interpreter hash seed cannot be expressed in a model of the Python "
+                  "code and are exercised on the implementation only. Recorded defects KF-C03-cext-backend, "
+                  "KF-C03-inline-datum-chunked, KF-C03-datum-empty-list."),
     "C04": dict(
         text="Lean theorems over the model of DictCBORSerializable's canonical sort and of Asset/MultiAsset/Value "
              "serialization: encoded bytes are a function of content (any two insertion orders / stored zeros / empty "
